@@ -227,12 +227,15 @@ def run_case(case, reports=False, keep_objects=False):
                 events.append(_ev("after_nested", el=sid, pos=pos, att=att, **probe(ctx)))
                 print("A%d_%d" % (sid, pos))
                 return
-            if cfg.get("tamper") and o in ("fail", "error"):
+            if cfg.get("tamper") and o in ("fail", "error", "skip_fail"):
                 # a step that redirects the process streams by hand and dies before undoing it
                 if cfg.get("cap_out", True):
                     sys.stdout = _Forward(sys.stdout)
                 if cfg.get("cap_err", True):
                     sys.stderr = _Forward(sys.stderr)
+            if o == "skip_fail":
+                sc.skip("S%d_%d" % (sid, pos))          # (a forgotten return after skip())
+                assert False, "M%d_%d" % (sid, pos)
             if o == "fail":
                 assert False, "M%d_%d" % (sid, pos)
             if o == "error":
@@ -358,6 +361,11 @@ def run_case(case, reports=False, keep_objects=False):
                     ctx.ra = el
                 elif nm == "before_scenario":
                     ctx.sa = el
+                if prog.get("hookcl") and nm in ("before_all", "after_all", "before_feature", "before_rule", "before_scenario", "after_scenario"):
+                    # the hook registers a cleanup of its own in the current scope
+                    def hook_cleanup(cid=500 + hookn[0]):
+                        events.append(_ev("cleanup", cid=cid, raised=False))
+                    ctx.add_cleanup(hook_cleanup)
                 if [nm, el] in skips:
                     a[0].skip("excluded by %s hook" % nm)       # the hook excludes its element at run time
                 if cfg.get("observe") and nm in ("after_scenario", "after_step", "before_scenario"):
